@@ -215,7 +215,7 @@ def _run(self, extra=None):
         tname=f'{type(self).__module__.rsplit(".", 1)[-1]}.{type(self).__qualname__}',
         ident=self.ident,
         pdigest=digest_of(canon(self)),
-        ctx=ctx_view(self.context),
+        ctx=ctx_view(self.context) if getattr(pr, 'embed_ctx', True) else (),
         deps=tuple(dep_digests),
         extra=extra,
         pad=make_pad(pr.shape(self), self.ident),
